@@ -560,6 +560,10 @@ func (c *Ctx) plySpecCaseEP(s plySpec, holdsOp string, fullEntries bool) {
 		c.Emit("c08.encode", st, plyHx(data))
 	}
 	c.plySpecFile(st, data, holdsOp, fullEntries)
+	if holdsOp == "c08.holds.meaning" {
+		// header only: the claim stage builds readers with exactly the (arity, attribute) keys of `meaning` (Props/C08Claim.lean)
+		c.Emit("c08.holds.claim_keys", st, "true")
+	}
 	c.plyHeaderCuts("c08.holds.header_cut_rejected", data)
 	// the same ASCII file as other tools end it: last record without line terminator, CR LF line ends in the body, a lone CR
 	// at the end, a blank line at the end — the file describes the same mesh
